@@ -41,3 +41,17 @@ def psiMax (c : Cfg) : Nat :=
   phiMax c.bm (accBound c) + 1 + (remMax (some c.twtr) + 1 + c.readLatency) + 1
 
 end CtlLive
+
+namespace RefreshRate
+open Controller CtlLive
+
+/-- length of one PREA / REF execution of the sequencer -/
+def M (c : Refresher.Cfg) : Nat := c.tRP + c.tRFC + 1
+def zqLen (c : Refresher.Cfg) : Nat := match c.tZQCS with | none => 0 | some z => c.tRP + z + 1
+
+/-- executable form of `RefreshRate.Budget` (the hypothesis of `C04.refresh_rate`): one refresh episode fits between two
+requests of the postponer -/
+def budgetCheck (c : Controller.Cfg) : Bool :=
+  decide (psiMax c + 2 + c.rf.postponing * M c.rf + zqLen c.rf ≤ c.rf.postponing * c.rf.tREFI)
+
+end RefreshRate
